@@ -5,7 +5,7 @@
     out of range (Rust panics).  [par] is the recursive find with path compression, written exactly as
     the code: read [p[v]]; if different from [v], recurse on it, write the answer into [p[v]]; finally
     read [p[v]] again and return it.  The recursion is not structural in Rust; the model recurses on a
-    fuel equal to the number of elements.  Running out of fuel gives the distinguished result [Fuel]
+    fuel equal to the number of elements plus one.  Running out of fuel gives the distinguished result [Fuel]
     (never a normal-looking value); the theorems show that it cannot happen from any reachable state.
 
     Definitions only; the proofs are in Proofs*.v. *)
@@ -60,7 +60,7 @@ Fixpoint par_rec (fuel : nat) (p : list nat) (v : nat) : res (list nat * nat) :=
         r' <- get p v ;; Ok (p, r')
   end.
 
-Definition par_fuel (p : list nat) : nat := length p.
+Definition par_fuel (p : list nat) : nat := S (length p).
 
 Definition par (s : dsu) (v : nat) : res (dsu * nat) :=
   match par_rec (par_fuel (p s)) (p s) v with
